@@ -217,8 +217,8 @@ def _build(w, obj, scale=1.0, nac_scale=1.0):
         ph.generate_displacements(distance=0.03, number_of_snapshots=2, random_seed=11)
         if d == "t2":
             ph.forces = np.array([w.forces_for(fc_full, u) for u in ph.dataset["displacements"]])
-            if obj["energies"]:
-                ph.supercell_energies = [-3.25 * vs, -3.5 * vs]
+        if obj["energies"]:  # energies may be there before (or without) the forces
+            ph.supercell_energies = [-3.25 * vs, -3.5 * vs]
     if obj["fc"] == "full":
         ph.force_constants = fc_full.copy()
     elif obj["fc"] == "compact":
@@ -425,6 +425,9 @@ def compare_snaps(ws, rs, dec, saved, obj, read):
                 _cmp("dataset.forces", wd["forces"], rdd.get("forces"), max(_tol(dec, "forces", 16), _tol(dec, "force", 16)), bad)
                 if "energies" in wd:
                     _cmp("dataset.supercell_energies", wd["energies"], rdd.get("energies"), max(_tol(dec, "supercell_energy", 8), _tol(dec, "supercell_energies", 8)), bad)
+            elif saved["force_sets"] and "energies" in wd:
+                # energies set before (or without) the forces are part of the dataset too
+                _cmp("dataset.supercell_energies(no forces)", wd["energies"], rdd.get("energies"), max(_tol(dec, "supercell_energy", 8), _tol(dec, "supercell_energies", 8)), bad)
     # force constants
     if saved["force_constants"] and ws["fc"] is not None:
         a, b = ws["fc"], rs["fc"]
